@@ -471,7 +471,7 @@ class Gen(object):
         r = self.rng
         ws = []
         for _ in range(r.randrange(lo, hi + 1)):
-            if alpha is False or (alpha is None and r.random() < 0.15):
+            if alpha is False or (alpha is None and r.random() < 0.15):   # alpha=True: letters only
                 ws.append(r.choice(NONALPHA))
             else:
                 ws.append(r.choice(WORDS))
@@ -675,7 +675,7 @@ class Gen(object):
         if q < 0.28:
             return self.expr()
         if q < 0.31:
-            return ['c', ' ' + self.words() + ' ']
+            return ['c', ' ' + self.words(alpha=True) + ' ']
         if q < 0.45 and not excl:
             return self.msg(2)
         if q < 0.53 and not excl:
